@@ -21,7 +21,7 @@ import ast
 from typing import Optional
 
 from ..absval import Interp, Sym, Unknown, enumerate_paths
-from ..model import AnchorMissing, Func, Undecided, norm
+from ..model import AnchorMissing, Func, Undecided, norm, walk_no_nested
 from ..report import Ctx
 
 DTYPES = {"u8": ("numpy.uint8", 255), "u16": ("numpy.uint16", 65535), "u32": ("numpy.uint32", 2**32 - 1), "u64": ("numpy.uint64", 2**64 - 1), "i64": ("numpy.int64", 2**63 - 1)}
@@ -53,9 +53,13 @@ class USet:
         self.lo, self.hi, self.zero, self.shift = lo, hi, zero, shift
 
     def exact(self, dtmax) -> bool:
+        if getattr(self, "dropped_smallest", False):
+            return False  # without background in the array the smallest LABEL is dropped, not the 0
         return self.shift == 0 and self.lo <= 1 and not self.zero and (self.hi is None or self.hi > dtmax)
 
     def __repr__(self):
+        if getattr(self, "dropped_smallest", False):
+            return "present values without the smallest one (that is the background only if the array has background)"
         return f"present values in [{self.lo}, {'inf' if self.hi is None else self.hi}){' incl. 0' if self.zero else ''}{f' shifted by {self.shift}' if self.shift else ''}"
 
 
@@ -119,6 +123,12 @@ class EnumInterp(Interp):
             return NonZeroSel(base.dt)
         if isinstance(base, USet) and isinstance(idx, NZMask) and idx.of is base:
             return USet(max(base.lo, 1) if base.shift == 0 else base.lo, base.hi, False, base.shift)
+        if isinstance(base, USet) and isinstance(idx, slice) and idx.step in (None, 1) and idx.stop is None and idx.start == 1:
+            # the sorted distinct values without the first: drops 0 only if 0 is present, else a label
+            u = USet(base.lo, base.hi, False, base.shift)
+            u.dropped_smallest = True
+            u.had_zero = base.zero
+            return u
         if isinstance(base, Hist) and isinstance(idx, slice) and idx.step in (None, 1):
             lo = idx.start if idx.start is not None else 0
             hi = idx.stop
@@ -184,11 +194,46 @@ class EnumInterp(Interp):
         return super().compare(op, l, r, node)
 
 
+def _enumerators_of_pair_constructors(prog) -> list:
+    """functions whose result becomes a label tuple / an instance count of a processing pair:
+    g(<array parameter>) (possibly under tuple()/list()/len()) assigned to self.<attr> in a pair constructor"""
+    out = []
+    try:
+        base = prog.cls("utils.processing_pair:_ProcessingPair")
+    except Exception:
+        return out
+    for c in [base] + base.all_subclasses():
+        init = c.methods.get("__init__")
+        if init is None:
+            continue
+        arr_params = {p.name for p in init.call_params if p.name.lower().endswith("_arr")}
+        for st in walk_no_nested(init.node):
+            tgts = st.targets if isinstance(st, ast.Assign) else [st.target] if isinstance(st, ast.AnnAssign) and st.value is not None else []
+            if not any(isinstance(t, ast.Attribute) and isinstance(t.value, ast.Name) and t.value.id == init.self_name for t in tgts):
+                continue
+            v = st.value
+            while isinstance(v, ast.Call) and isinstance(v.func, ast.Name) and v.func.id in ("tuple", "list", "sorted", "len", "int") and len(v.args) == 1:
+                v = v.args[0]
+            if isinstance(v, ast.Call) and v.args and isinstance(v.args[0], ast.Name) and v.args[0].id in arr_params:
+                for g in prog.resolve_call(init, v, fanout=False):
+                    if isinstance(g, Func) and len([p for p in g.call_params if p.default is None]) == 1:
+                        attr = next(t.attr for t in tgts if isinstance(t, ast.Attribute))
+                        kind = "count" if ("instance" in attr and not isinstance(st.value, ast.Call)) else None
+                        out.append((g, kind))
+    return out
+
+
 def check_label_enumeration(ctx: Ctx):
     prog = ctx.prog
     n = 0
-    for ref, kind in (("utils.numpy_utils:_unique_without_zeros", "set"), ("utils.numpy_utils:_count_unique_without_zeros", "count")):
-        f = prog.func(ref)
+    targets = [(prog.func("utils.numpy_utils:_unique_without_zeros"), "set"), (prog.func("utils.numpy_utils:_count_unique_without_zeros"), "count")]
+    seen = {t[0].qual for t in targets}
+    for g, kind in _enumerators_of_pair_constructors(prog):
+        if g.qual not in seen:
+            seen.add(g.qual)
+            # what the function returns decides how it is read: a collection of labels or their number
+            targets.append((g, kind or "set-or-count"))
+    for f, kind in targets:
         p0 = f.call_params[0].name
         for dt, (sym, dtmax) in DTYPES.items():
             def make(prefix, dt=dt):
@@ -206,7 +251,10 @@ def check_label_enumeration(ctx: Ctx):
                     ctx.undecided("R09.6", f, out.node, construct, f"label enumeration ends with {out.kind} {out.exc or ''}")
                     continue
                 v = out.value
-                us = v.of if (kind == "count" and isinstance(v, Card)) else v if (kind == "set" and isinstance(v, USet)) else None
+                if kind == "set-or-count":
+                    us = v.of if isinstance(v, Card) else v if isinstance(v, USet) else None
+                else:
+                    us = v.of if (kind == "count" and isinstance(v, Card)) else v if (kind == "set" and isinstance(v, USet)) else None
                 n += 1
                 if us is None:
                     ctx.undecided("R09.6", f, out.node, construct, f"result outside the modelled label-set expressions: {v!r}"[:160])
@@ -214,3 +262,36 @@ def check_label_enumeration(ctx: Ctx):
                 ctx.decide("R09.6", f, out.node, construct, "the helper yields exactly the non-zero values present in the array" + (" (their number)" if kind == "count" else ""), us.exact(dtmax), {"got": repr(us), "dtype_max": dtmax})
     if n < 10:
         ctx.undecided("R09.6.floor", None, None, "floor:R09.6", f"{n} enumeration paths evaluated, confirmed floor is 10")
+
+
+def verified_enumerators(prog) -> dict:
+    """{function qual: 'set' | 'count'} for the functions (other than the two anchors) that feed the pair
+    constructors and are PROVED here, for every dtype and on every path, to yield exactly the non-zero values
+    present in their array argument (or their number).  Other abstract interpretations may then read a call
+    of such a function as a call of the anchor they model (summary by verification)."""
+    out = {}
+    anchors = {prog.func("utils.numpy_utils:_unique_without_zeros").qual, prog.func("utils.numpy_utils:_count_unique_without_zeros").qual}
+    for g, _kind in _enumerators_of_pair_constructors(prog):
+        if g.qual in anchors or g.qual in out:
+            continue
+        p0 = g.call_params[0].name
+        kinds = set()
+        ok = True
+        for dt, (sym, dtmax) in DTYPES.items():
+            try:
+                outs = enumerate_paths(lambda prefix, dt=dt: EnumInterp(prog, g, {p0: Arr(dt)}, prefix=prefix), max_paths=32)
+            except Exception:
+                ok = False
+                break
+            for o in outs:
+                v = o.value if o.kind == "return" else None
+                us = v.of if isinstance(v, Card) else v if isinstance(v, USet) else None
+                if us is None or not us.exact(dtmax):
+                    ok = False
+                    break
+                kinds.add("count" if isinstance(v, Card) else "set")
+            if not ok:
+                break
+        if ok and len(kinds) == 1:
+            out[g.qual] = kinds.pop()
+    return out
